@@ -153,6 +153,35 @@ pub fn pool() -> Vec<S> {
             ),
         ),
         push_obs(call("k", vec![])),
+        // the same counter where the captured local lives in a nested block of the enclosing function and the closure
+        // writes it inside a nested block of its own, then reads it after that block (one capture slot, not two)
+        S::Let(
+            "kb".into(),
+            E::Call(
+                Box::new(E::Fn(
+                    vec![],
+                    b(vec![
+                        S::Let("r".into(), E::Lit(V::Null)),
+                        S::Block(vec![
+                            S::Let("n".into(), lit_i(0)),
+                            S::Expr(assign(
+                                var("r"),
+                                E::Fn(
+                                    vec![],
+                                    b(vec![
+                                        S::Expr(E::If(Box::new(E::Lit(V::Bool(true))), vec![S::Expr(assign(var("n"), bin("+", var("n"), lit_i(1))))], None)),
+                                        S::Expr(var("n")),
+                                    ]),
+                                ),
+                            )),
+                        ]),
+                        S::Expr(var("r")),
+                    ]),
+                )),
+                vec![],
+            ),
+        ),
+        push_obs(call("kb", vec![])),
         // containers
         S::Expr(assign(E::Index(Box::new(y()), Box::new(lit_i(0))), lit_i(3))),
         S::Let("m".into(), E::MapLit(vec![(lit_i(1), x()), (E::Lit(V::Str("a".into())), lit_i(2))])),
